@@ -102,7 +102,8 @@ func render(sb *sbuf, ns []*node, depth int) {
 			}
 		case kWhile:
 			sb.add("%s令I%d = 0\n", ind(depth), n.id)
-			sb.add("%s每当 I%d < N%d：\n", ind(depth), n.id, n.id)
+			// every test of the condition leaves a mark in the trace
+			sb.add("%s每当 （测：I%d < N%d、%d）：\n", ind(depth), n.id, n.id, 9000+n.id)
 			sb.add("%sI%d = I%d + 1\n", ind(depth+1), n.id, n.id)
 			render(sb, n.a, depth+1)
 		case kForList:
@@ -215,7 +216,11 @@ func (e *env) run(ns []*node) (signal, float64) {
 		case kWhile:
 			i := 0
 		loopW:
-			for i < e.limits[n.id] {
+			for {
+				e.trace = append(e.trace, float64(9000+n.id)) // the condition is tested before every pass - and only then
+				if !(i < e.limits[n.id]) {
+					break
+				}
 				i++
 				s, v := e.run(n.a)
 				switch s {
@@ -287,6 +292,15 @@ func installTrace() {
 			} else {
 				traceSink = append(traceSink, -1)
 			}
+		}
+		return value.NewNull(), nil
+	})
+	exec.GlobalValues["测"] = value.NewFunction(func(receiver r.Element, params []r.Element) (r.Element, error) {
+		if len(params) == 2 {
+			if n, ok := params[1].(*value.Number); ok {
+				traceSink = append(traceSink, n.GetValue())
+			}
+			return params[0], nil
 		}
 		return value.NewNull(), nil
 	})
@@ -466,6 +480,47 @@ func T_Nest3() {
 		zv.Stop()
 	}
 	check(nest(shape, exit), "nest3")
+}
+
+// H_SignalAcrossCall: 结束循环 / 继续循环 act on the innermost enclosing loop of
+// their own body only.  A method body that executes one of them outside any
+// loop of its own is called from a loop of the caller (every loop kind): the
+// caller's loop must not be ended / continued by it - the call fails instead,
+// exactly as the same statement does at the top level of a program.
+func H_SignalAcrossCall() {
+	stmt := []string{"结束循环", "继续循环"}[zv.Choose(2)]
+	loop := []string{
+		"以V遍历【1，2，3】：\n",
+		"以K、V遍历【甲 = 1，乙 = 2】：\n",
+		"令I = 0\n每当 I < 3：\n    I = I + 1\n",
+	}[zv.Choose(3)]
+	nested := zv.Choose(2) == 1 // the statement sits inside a branch of the method body
+	b := zv.Bool("B")
+	body := "    （显示：1）\n"
+	if nested {
+		body += "    如果 B：\n        " + stmt + "\n"
+	} else {
+		body += "    如果 B：\n        " + stmt + "\n    （显示：2）\n"
+	}
+	src := "输入B\n如何F？\n" + body + "    输出 7\n" + loop + "    （显示：10）\n    令R = （F）\n    （显示：R）\n（显示：20）\n输出 5"
+	installTrace()
+	var res r.Element
+	var err error
+	var pn interface{}
+	func() {
+		defer func() { pn = recover() }()
+		res, err = exec.NewInterpreter("v").LoadScript([]rune(src)).Execute(r.ElementMap{"B": value.NewBool(b)})
+	}()
+	zv.Assert(pn == nil, "signal across call: no panic\n"+src)
+	if b {
+		zv.Reach("signal")
+		zv.Assert(err != nil, stmt+" outside any loop of a method body does not act on a loop of the caller (the call fails)\n"+src)
+		zv.Assert(len(traceSink) == 2 && traceSink[0] == 10 && traceSink[1] == 1, "nothing runs after the misplaced "+stmt+"\n"+src)
+		return
+	}
+	zv.Reach("plain")
+	n, ok := res.(*value.Number)
+	zv.Assert(err == nil && ok && n.GetValue() == 5, "without the signal the program runs to its end\n"+src)
 }
 
 // H_NonBoolCondition: a non-boolean condition is rejected.
